@@ -42,7 +42,9 @@ type c03Args struct {
 
 // c03Run: dir "c2s" (client sends N=progress notification, T=tool call, P=ping)
 // or "s2c" (server sends N=progress, L=log message, M=create-message call).
-func c03Run(dir, version string, maxLen int) vs.Verdict { return c03RunNested(dir, version, maxLen, false) }
+func c03Run(dir, version string, maxLen int) vs.Verdict {
+	return c03RunNested(dir, version, maxLen, false)
+}
 
 // c03RunNested: with nested set, every notification handler (and the initialized handler) first calls
 // the peer back under its own context - what a roots/list_changed handler calling ListRoots or a
